@@ -286,6 +286,38 @@ def rule_R3(ck):
         if got != want or errs or raised:
             ck.violation(where, f"'{text}' is parsed as {got!r} (errors {errs}, {raised}), expected {want!r}", construct="expression tree for unary/brackets", expected=repr(want), found=repr(got))
 
+    # stacked prefix operators: the one written nearest the operand is applied first ('-~a' is -(~a)), alone and under an infix
+    # operator; every ordered pair of the tight prefix operators of the folded table ('#', '@' and '%' are operand syntax)
+    tight = sorted(char for (char, kind) in reg if kind == "prefix" and char in ("+", "-", "~", "^c"))
+    if len(tight) < 4:
+        ck.unknown(f"tight prefix operators of the table: {tight}")
+    m = 0
+    for p1 in tight:
+        for p2 in tight:
+            for text, want in ((f"{p1}{p2}a", (p1, (p2, "a"))), (f"{p1}{p2}a * b", ("*", (p1, (p2, "a")), "b"))):
+                if p1 == p2:
+                    continue    # '--a' / '++a' meet the tokeniser's own rules; the order of two equal operators is not observable
+                r, pos, errs, raised = run_parser(I, "expression", text)
+                got = tree_shape(r) if r is not None else None
+                got = _lower_ops(got)
+                m += 1
+                ck.instance(("tree", text), {"text": text, "tree": repr(got)} if p1 == "-" else None, fn=where)
+                if got != want or errs or raised or pos != len(text):
+                    ck.violation(where, f"'{text}' is parsed as {got!r} (errors {errs}, {raised}), expected {want!r}: of stacked prefix operators the one nearest the operand is applied first",
+                                 construct="expression tree for stacked prefix operators", expected=repr(want), found=repr(got))
+    for text, want in (("-~-a", ("-", ("~", ("-", "a")))), ("~-~a + 1", ("+", ("~", ("-", ("~", "a"))), "1"))):
+        r, pos, errs, raised = run_parser(I, "expression", text)
+        got = _lower_ops(tree_shape(r) if r is not None else None)
+        ck.instance(("tree", text), {"text": text, "tree": repr(got)}, fn=where)
+        if got != want or errs or raised:
+            ck.violation(where, f"'{text}' is parsed as {got!r} (errors {errs}, {raised}), expected {want!r}", construct="expression tree for stacked prefix operators", expected=repr(want), found=repr(got))
+
+
+def _lower_ops(t):
+    if isinstance(t, tuple):
+        return (t[0].lower() if isinstance(t[0], str) else t[0],) + tuple(_lower_ops(x) for x in t[1:])
+    return t
+
 
 LITERALS = [
     # text, value, is_valid_label, flagged-as-8/9 (error reported or invalid_base8), None value = 'not a number' (label)
